@@ -95,7 +95,8 @@ def _e_dyad_amend_in_depth(p, q, v):
     if bknp.isarray(q) and len(q) > 1:
         i = int(q[0])  # the index list shares an array with the new value and may have been promoted to real
         r = _e_dyad_amend_in_depth(p[i], q[1:] if len(q) > 2 else q[1], v)
-        p = bknp.array(p, dtype=r.dtype)
+        # copy the outer level; a ragged/mixed (object) outer list stays one
+        p = bknp.array(p, dtype=object) if bknp.isarray(p) and p.dtype == object else bknp.array(p, dtype=r.dtype)
         p[i] = r
         return p
     else:
